@@ -7,7 +7,7 @@ From NV Require Import Machine.Dfa Regex.Re Ref.Lang Ref.LangEq Ref.RefSem Ref.U
 
 (** no decision of any configuration in the table is ambiguous, on any symbol of interest *)
 Theorem c09_no_decision_ambiguous : forall f syms tbl, find_ambiguity f syms tbl = None ->
-  forall K, In K tbl -> forall K1, In K1 (leaves (settle true f K)) -> forall s, In s syms ->
+  forall K, In K tbl -> forall K1, In K1 (leaves (settle false f K)) -> forall s, In s syms ->
   ambiguous_at f K1 s = None.
 Proof. exact find_ambiguity_none. Qed.
 Print Assumptions c09_no_decision_ambiguous.
